@@ -1,6 +1,7 @@
 package props
 
 import (
+	"bytes"
 	"crypto/sha256"
 	"encoding/hex"
 	"fmt"
@@ -146,7 +147,12 @@ func runAtt(astype int, cutSeed uint64, files []attFile, events []string, alarmI
 	}
 	var stream []byte
 	nControl := 0
+	type ctl struct{ id, serial uint16 }
+	var ctls []ctl
 	for _, ev := range events {
+		if ev[0] == 'A' || ev[0] == 'B' || ev[0] == 'E' {
+			ctls = append(ctls, ctl{map[byte]uint16{'A': 0x1210, 'B': 0x1211, 'E': 0x1212}[ev[0]], serial})
+		}
 		switch ev[0] {
 		case 'A':
 			stream = append(stream, frame(0x1210, att1210(astype, files, alarmID, r))...)
@@ -204,11 +210,21 @@ func runAtt(astype int, cutSeed uint64, files []attFile, events []string, alarmI
 		return "scenario-failed:server/died", &fw.OracleFailure{Sig: "attach-server/died", Msg: fmt.Sprintf("attachment server exited with code %d: %s", code, lastLines(tail, 6))}
 	}
 	var rs []string
-	for _, f := range replies {
+	var addrOrc *fw.OracleFailure
+	for k, f := range replies {
 		h, body, ok := frames.Parse(f)
 		if !ok {
 			rs = append(rs, "undecodable")
 			continue
+		}
+		// the prescribed reply is addressed to the terminal that sent the control frame and, for the general response,
+		// echoes that frame's serial number and id with result 0
+		if k < len(ctls) && addrOrc == nil {
+			if !bytes.Equal(h.Phone, phone) {
+				addrOrc = &fw.OracleFailure{Sig: "attach/reply-addressing", Msg: fmt.Sprintf("reply %d (0x%04x) is addressed to phone %x, the control frame came from %x", k, h.ID, h.Phone, phone)}
+			} else if h.ID == 0x8001 && (len(body) != 5 || be(body[0:2]) != uint64(ctls[k].serial) || be(body[2:4]) != uint64(ctls[k].id) || body[4] != 0) {
+				addrOrc = &fw.OracleFailure{Sig: "attach/reply-echo", Msg: fmt.Sprintf("reply %d: general response %x does not echo serial %d and id 0x%04x with result 0", k, body, ctls[k].serial, ctls[k].id)}
+			}
 		}
 		if h.ID == 0x9212 && len(body) >= 4 {
 			l := int(body[0])
@@ -232,7 +248,7 @@ func runAtt(astype int, cutSeed uint64, files []attFile, events []string, alarmI
 	}
 	// per file: complete? content identical?
 	var fs []string
-	var orc *fw.OracleFailure
+	orc := addrOrc
 	if !gotQuit {
 		return fmt.Sprintf("replies=[%s] files=[no-quit-event]", strings.Join(rs, ",")), &fw.OracleFailure{Sig: "attach/no-quit", Msg: "the connection handler did not finish within 3 s after the client closed"}
 	}
@@ -422,6 +438,10 @@ func genC15(r *fw.Rng, tier string, emit func(fw.Case)) {
 					}
 				}
 				events = rest
+			}
+			if r.Chance(15) {
+				// a terminal that resumes: the first control frame of the connection is a 0x1211, the 0x1210 follows
+				events = append([]string{"B0"}, events...)
 			}
 			var fsS []string
 			for _, f := range files {
